@@ -1044,6 +1044,8 @@ impl HomeRelayWatch {
     /// the time the old actor tries to write, the URL no longer matches.
     fn set_status(&self, url: &RelayUrl, state: RelayConnectionState) {
         if self.inner.get().as_ref().map(RelayStatus::url) == Some(url) {
+            #[cfg(feature = "verif-hooks")]
+            crate::verif_hooks::pause("homerelay.between_get_and_set");
             let _ = self.inner.set(Some(RelayStatus::new(url.clone(), state)));
         }
     }
@@ -1054,6 +1056,23 @@ impl HomeRelayWatch {
 
     pub(crate) fn watch(&self) -> n0_watcher::Direct<Option<RelayStatus>> {
         self.inner.watch()
+    }
+}
+
+/// Pass-through accessors for the external verification harness.
+#[cfg(feature = "verif-hooks")]
+impl HomeRelayWatch {
+    pub(crate) fn verif_set(&self, url: RelayUrl, state: RelayConnectionState) {
+        self.set(url, state)
+    }
+    pub(crate) fn verif_clear(&self) {
+        self.clear()
+    }
+    pub(crate) fn verif_set_status(&self, url: &RelayUrl, state: RelayConnectionState) {
+        self.set_status(url, state)
+    }
+    pub(crate) fn verif_get(&self) -> Option<RelayStatus> {
+        self.get()
     }
 }
 
